@@ -53,6 +53,13 @@ def c15(ctx):
         cases.append({"tags": T, "exclude": None, "include": None})
         for _ in range(nrand):
             cases.append({"tags": T, "exclude": rnd_list(), "include": rnd_list()})
+    # the caller's rule vector need not come in the order of get_all_rules(): a third of the cases hands it over reversed / rotated
+    # (the selection is sorted by code all the same: the model takes the registry as a SET)
+    for k9, c9 in enumerate(cases):
+        if k9 % 3 == 1:
+            c9["perm"] = "rev"
+        elif k9 % 3 == 2:
+            c9["perm"] = "rot%d" % rng.randrange(1, 120)
     impl = lib.run_vh("select", cases)
     regenc = pipe.enc_list(reg["rules"], enc_rule)
     lines = ["%s %s %s %s" % (regenc, enc_optlist(c["tags"]), enc_optlist(c["exclude"]), enc_optlist(c["include"])) for c in cases]
@@ -127,3 +134,26 @@ def c15(ctx):
     nsel = props_dlint.dlint_selection(ctx, dl, "C15", _random.Random(ctx.seed + 1500))
     ctx.correspondence("dlint --rule / --config (tags, include, exclude; omitted keys) run exactly the selected rules", nsel, nsel, [],
                        "reported codes of the dlint binary on a probe file vs the library run with the expected rule set")
+    # a caller that parses a plain-JavaScript media type with JSX switched on (possible only through lint_with_ast): the selected
+    # rules run all the same -- the result is the one of the .jsx media type
+    jsx_progs = [sn["src"] for sn in PM_corpus_jsx()][:400 if ctx.tier == "quick" else 4000]
+    ja = lib.run_vh("lint", [{"src": s9, "media": "jsx", "rules": "all", "entry": "ast"} for s9 in jsx_progs])
+    njs = njs_bad = 0
+    for med in ("js", "mjs", "unknown"):
+        jb = lib.run_vh("lint", [{"src": s9, "media": med, "rules": "all", "entry": "ast", "jsx_syntax": True} for s9 in jsx_progs])
+        for s9, x9, y9 in zip(jsx_progs, ja, jb):
+            if "ok" not in (x9 or {}) or "ok" not in (y9 or {}):
+                continue
+            njs += 1
+            kx = sorted((d["code"], d["start"], d["end"]) for d in x9["ok"] if d["code"].startswith("jsx-") or d["code"].startswith("react-"))
+            ky = sorted((d["code"], d["start"], d["end"]) for d in y9["ok"] if d["code"].startswith("jsx-") or d["code"].startswith("react-"))
+            if kx != ky:
+                njs_bad += 1
+                if njs_bad <= 2:
+                    ctx.violation("C15.selected-rules-not-run-for-media-%s" % med, "JSX rules give %s for the caller-parsed %s source, %s for .jsx" % (ky[:3], med, kx[:3]), {"src": s9, "media": med})
+    ctx.correspondence("lint_with_ast on a JavaScript media type parsed with JSX on: the JSX-tagged rules of the selection run as for .jsx", njs, njs, [], "test programs of the jsx-* / react-* rules")
+
+
+def PM_corpus_jsx():
+    import props_misc
+    return [sn for sn in props_misc.get_corpus() if sn["rule_file"].startswith(("jsx_", "react_")) and "<" in sn["src"] and ": " not in sn["src"][:0]]
